@@ -5,7 +5,9 @@ CFG = {
     "check_vo": "theories/Check/C14.vo", "prop_vo": "theories/Properties/C14.vo",
     "prop_file": "theories/Properties/C14.v",
     "theory_files": ["theories/Base/Bytes.v", "theories/Base/BytesProofs.v", "theories/Formats/Stl.v",
-                     "theories/Formats/StlProofs.v", "theories/Formats/Pts.v", "theories/Formats/PtsProofs.v"],
+                     "theories/Formats/StlProofs.v", "theories/Formats/Pts.v", "theories/Formats/PtsProofs.v",
+                     "theories/Formats/Splat.v", "theories/Formats/Spz.v", "theories/Formats/PlyRead.v",
+                     "theories/Formats/PrefixProofs.v"],
     "level_text": "Coq theorems: every strict prefix of a valid file is rejected or yields only data present in the prefix "
                   "(binary STL, PTS at token level, .splat records; PLY/SPZ through their byte models), for every file and "
                   "every cut; tied to the code by decoding EVERY strict prefix of generated files with the real decoders "
@@ -14,7 +16,7 @@ CFG = {
                   "proportional to the input' is observed (deadline 2 s + 1 us/byte per decode), not proved about the Go runtime",
     "technique": "Coq proof (prefix rejection by induction over records/lines) + exhaustive cut-point correspondence",
     "design_ref": "DESIGN.md §4 C14",
-    "n_quick": 42, "n_thorough": 700,
+    "n_quick": 64, "n_thorough": 800,
     "rule": "valid files of 7 kinds (STL, PLY ascii/le/be incl. faces+UV lists, PTS 3/4/7 columns, .splat, SPZ v1/v2 "
             "degree 0-3 via an independent encoder) from random small meshes; EVERY byte cut for binary files and "
             "headers, every token boundary for ASCII bodies; distinct by file bytes; non-trivial = more than 20 cuts",
